@@ -99,6 +99,7 @@ def specs():
     s('workdps_with')(lambda mp, cb, arg: _with(mp.workdps(40), cb(lambda: mp.sqrt(2))))
     s('extraprec_with')(lambda mp, cb, arg: _with(mp.extraprec(33), cb(lambda: mp.sqrt(2))))
     s('extradps_with')(lambda mp, cb, arg: _with(mp.extradps(7), cb(lambda: mp.sqrt(2))))
+    s('extraprec_reentrant')(lambda mp, cb, arg: _with2(mp.extraprec(17), cb(lambda: mp.sqrt(2))))
     s('workprec_deco')(lambda mp, cb, arg: mp.workprec(200)(cb(lambda: mp.sqrt(2)))())
     s('workdps_deco_norm')(lambda mp, cb, arg: mp.workdps(40, normalize_output=True)(cb(lambda: mp.sqrt(2)))())
     s('extradps_deco')(lambda mp, cb, arg: mp.extradps(5)(cb(lambda: mp.sqrt(2)))())
@@ -272,6 +273,26 @@ def _with(mgr, body):
         return body()
 
 
+def _with2(mgr, body):
+    """D8: the SAME PrecisionManager object entered twice"""
+    with mgr:
+        with mgr:
+            return body()
+
+
+def spec_entry(name):
+    """the public mpmath function a spec exercises: longest '_'-prefix of the spec name that is an
+    attribute of mp (`hyp2f1_z1` -> hyp2f1, `lu_solve` -> lu_solve, `jtheta2_c` -> jtheta)"""
+    from mpmath import mp
+    parts = name.split('_')
+    for i in range(len(parts), 0, -1):
+        cand = '_'.join(parts[:i])
+        if hasattr(mp, cand): return cand
+        c2 = cand.rstrip('0123456789')
+        if c2 and hasattr(mp, c2): return c2
+    return parts[0]
+
+
 # --------------------------------------------------------------------------------------------
 # worker
 # --------------------------------------------------------------------------------------------
@@ -433,12 +454,23 @@ def kschedule(n):
 
 
 def entry_job(args):
-    name, precs, timeout, nb_sites, modes, excs = args
+    name, precs, timeout, nb_sites, modes, excs = args[:6]
+    deadline = args[6] if len(args) > 6 else None
+    res = dict(name=name, leaks=[], noresult=[], runs=0, swallowed=0, cover=[], outcomes={}, nontrivial=0,
+               fired=0, skipped=False, precs=list(precs))
+    if deadline is not None and time.time() > deadline:
+        res['skipped'] = True
+        return res
     w = Worker(timeout, nb_sites)
-    res = dict(name=name, leaks=[], noresult=[], runs=0, swallowed=0, cover=[], outcomes={})
     def run(task):
+        if deadline is not None and time.time() > deadline + 30:
+            res['skipped'] = True
+            return dict(task, outcome='budget', leak=None, calls=0)
         r = w.run(task)
         res['runs'] += 1
+        if r.get('fired'): res['fired'] += 1
+        if r.get('leak') is not None and (r.get('fired') or (task['mode'] == 'a' and res['cover'])):
+            res['nontrivial'] += 1
         o = r['outcome'].split(':')[0]
         res['outcomes'][o] = res['outcomes'].get(o, 0) + 1
         if r.get('leak') is None:
@@ -480,13 +512,24 @@ def entry_job(args):
     return res
 
 
-def load_nb(path):
+def load_nb(path, all_effect=False):
+    """(sidecar, {(file, first code line) -> function key}) for the not-bracketed functions, or
+    (all_effect) for every function with a precision effect"""
     d = json.load(open(path))
     sites = {}
     for key, v in d['functions'].items():
-        if not v['bracketed']:
+        if all_effect or not v['bracketed']:
             sites[(os.path.realpath(os.path.join(d['summary']['repo'], v['file'])), v.get('codeline', v['line']))] = key
     return d, sites
+
+
+def search(names, precs, sites, timeout=20.0, jobs=6, modes=('b', 'c'), excs=('X',), deadline=None):
+    """run the schedule for the given specs; `precs` is a list or a dict spec -> list"""
+    from concurrent.futures import ThreadPoolExecutor
+    js = [(n, (precs[n] if isinstance(precs, dict) else precs), timeout, sites, list(modes), list(excs), deadline)
+          for n in names]
+    with ThreadPoolExecutor(jobs) as ex:
+        return list(ex.map(entry_job, js))
 
 
 def main():
